@@ -409,7 +409,20 @@ fn redxor_on_huge_width(s: &str) -> Option<u64> {
     None
 }
 
+/// a per-thread scratch file for stored bytes that only `parse_file` can read
+fn scratch_file() -> std::path::PathBuf {
+    use std::hash::{Hash, Hasher};
+    let mut h = std::collections::hash_map::DefaultHasher::new();
+    std::thread::current().id().hash(&mut h);
+    let dir = std::path::PathBuf::from(crate::runner::verif_dir()).join("scratch");
+    let _ = std::fs::create_dir_all(&dir);
+    dir.join(format!("c18-{}-{:x}.btor", std::process::id(), h.finish()))
+}
+
 fn judge_text(text: &[u8], acc: &mut Acc) -> Option<Violation> {
+    if std::str::from_utf8(text).is_err() {
+        acc.count("probe.stored_bytes_not_utf8_read_through_parse_file", 1);
+    }
     let s = String::from_utf8_lossy(text).to_string();
     if let Some(w) = redxor_on_huge_width(&s) {
         let v = Violation {
@@ -424,7 +437,18 @@ fn judge_text(text: &[u8], acc: &mut Acc) -> Option<Violation> {
     let mut problem: Option<(String, String)> = None;
     let out = guarded(|| {
         let mut ctx = Context::default();
-        match patronus::btor2::parse_str(&mut ctx, &s, Some("stored")) {
+        // bytes that are not valid UTF-8 cannot be handed to `parse_str(&str)`: such a stored
+        // file reaches the reader through `parse_file_with_ctx`, which reads the bytes itself
+        let parsed = if std::str::from_utf8(text).is_err() {
+            let path = scratch_file();
+            std::fs::write(&path, text).map_err(|e| format!("HARNESS: cannot write {}: {e}", path.display()))?;
+            let r = patronus::btor2::parse_file_with_ctx(&path, &mut ctx);
+            let _ = std::fs::remove_file(&path);
+            r
+        } else {
+            patronus::btor2::parse_str(&mut ctx, &s, Some("stored"))
+        };
+        match parsed {
             None => Ok(Accepted::Rejected),
             Some(sys) => {
                 if let Err(p) = deep_check(&ctx, &sys) {
